@@ -679,7 +679,7 @@ public:
 
     auto get() const -> integer_t
     {
-        const BitField channel_mask = static_cast< integer_t >( parent_t::max_val ) <<_first_bit;
+        const BitField channel_mask = static_cast< BitField >( parent_t::max_val ) <<_first_bit;
         return static_cast< integer_t >(( this->get_data(data_size())&channel_mask ) >> _first_bit );
     }
 
@@ -733,13 +733,13 @@ public:
 
     auto get() const -> integer_t
     {
-        BitField const channel_mask = static_cast< integer_t >( parent_t::max_val ) << _first_bit;
+        BitField const channel_mask = static_cast< BitField >( parent_t::max_val ) << _first_bit;
         return static_cast< integer_t >(( this->get_data(data_size())&channel_mask ) >> _first_bit );
     }
 
     void set_unsafe(integer_t value) const {
-        const BitField channel_mask = static_cast< integer_t >( parent_t::max_val ) << _first_bit;
-        this->set_data((this->get_data(data_size()) & ~channel_mask) | value<<_first_bit, data_size());
+        const BitField channel_mask = static_cast< BitField >( parent_t::max_val ) << _first_bit;
+        this->set_data((this->get_data(data_size()) & ~channel_mask) | static_cast< BitField >( value )<<_first_bit, data_size());
     }
 
 private:
